@@ -359,7 +359,7 @@ RunActive(r) == r \in DOMAIN runs /\ runs[r].status \in {"fresh", "susp"}
 HasActiveRun(e) == \E r \in DOMAIN runs : runs[r].e = e /\ runs[r].status \in {"fresh", "susp"}
 
 OpEnabled(op) ==
-  CASE op.op \in {"next", "close"} -> RunActive(op.r)
+  CASE op.op \in {"next", "close", "rest"} -> RunActive(op.r)
     [] op.op \in {"query", "solve"} -> op.r \notin DOMAIN runs
     [] op.op = "clear" -> ~HasActiveRun(op.e)      \* clear under an own suspended run: unspecified
     [] op.op = "assert" -> op.r = 0 \/ op.r \in DOMAIN runs
@@ -414,13 +414,15 @@ Imm(op, t) ==
      /\ hist' = Rec(op, Ok, es, rs)
      /\ cur' = NoCur /\ Advance(t) /\ UNCHANGED <<fuel, halted>>
 
-\* next / solve start advancing a run
+\* next / solve / rest start advancing a run (rest: the consumer's loop over the remaining answers of a
+\* query it has already started, collected in one step like solve)
 Start(op, t) ==
-  /\ op.op \in {"next", "solve"}
+  /\ op.op \in {"next", "solve", "rest"}
   /\ LET rs == IF op.op = "solve" THEN Put(runs, op.r, NewRun(op.e, op.goal, op.qnv)) ELSE runs
          run == rs[op.r] IN
      /\ runs' = [rs EXCEPT ![op.r].status = IF run.status = "fresh" THEN "run" ELSE "back"]
-     /\ cur' = [r |-> op.r, mode |-> op.op, left |-> IF op.op = "solve" THEN op.k ELSE 0, acc |-> <<>>, op |-> op, t |-> t]
+     /\ cur' = [r |-> op.r, mode |-> IF op.op = "rest" THEN "solve" ELSE op.op, left |-> IF op.op \in {"solve", "rest"} THEN op.k ELSE 0,
+                 acc |-> <<>>, op |-> op, t |-> t]
   /\ UNCHANGED <<engs, hist, fuel, halted, pc, tpc>>
 
 Take ==
